@@ -174,6 +174,15 @@ func Generate(prop string, prof *Profile, seed int64, run int, opts Options) (*P
 		if g.crashes && sim.alive && r.Intn(4) == 0 {
 			// the last thing that happens is a kill: the server that has to finish the stored work
 			// is one that has just been started on it
+			if r.Intn(2) == 0 {
+				// with a task that has just been born and not yet dispatched
+				for _, pre := range []Step{{Op: "req", Req: &ReqSpec{Kind: "CreatePromise", Id: pick(r, prof.Promises), Data: g.val(), TimeoutRel: 10_000_000, Tags: map[string]string{"resonate:invoke": "poll://g1/w1"}}}, {Op: "drain"}} {
+					pre := pre
+					traceStep(&pre)
+					sim.Exec(len(plan.Steps), &pre)
+					plan.Steps = append(plan.Steps, pre)
+				}
+			}
 			st := Step{Op: "crash"}
 			traceStep(&st)
 			sim.Exec(len(plan.Steps), &st)
